@@ -376,7 +376,12 @@ GUARDS = {"C11-ignore-text-in-string": guard_text_outside_comment, "C11-splitlin
 # ---------------------------------------------------------------------------
 
 def gen_files():
-    return tr_lines.gen_files(str(lib.REPO))
+    # Properties/C11.v composes with C18's lookup: Gen/Options.v is regenerated too
+    from translate import options as tr_options
+
+    g = tr_lines.gen_files(str(lib.REPO))
+    g["Options.v"] = tr_options.translate(str(lib.REPO))
+    return g
 
 
 TRACKED_CFG_ROUTES = ["cli", "top", "override", "override_prefix"]
@@ -500,7 +505,7 @@ def run(tier: str, replay: str | None = None):
     proof = None
     try:
         gen = gen_files()
-    except tr_lines.TranslateError as ex:
+    except Exception as ex:  # TranslateError of either translator
         broken_translation = str(ex)
         gen = None
     if gen is not None:
